@@ -125,23 +125,62 @@ def rule_b(ctx, ix):
 
 
 def _snapshot_parts(f, selfname):
-    """(reset stmt, outer loop, store stmt) of the old_states snapshot in do()."""
+    """The snapshot of the selections taken in do(), whatever it is written as - nested loops storing ``old[k] = v``,
+    ``old.update(<generator>)``, a dict comprehension or ``dict(<generator>)``:
+    (reset statement, fill statement, [(target text, iter text)] outermost first, key text, value text, conditional?) or None."""
     fld = '%s.old_states' % selfname
-    reset = [st for st in body_stmts(f.node) if isinstance(st, ast.Assign) and any(unparse(t) == fld for t in st.targets)]
+    top = body_stmts(f.node)
+    reset = [st for st in top if isinstance(st, ast.Assign) and any(unparse(t) == fld for t in st.targets)]
     # `states = self.old_states = {}` / `states = self.old_states`: other names for the same dictionary
     aliases = {fld}
-    for st in body_stmts(f.node):
+    for st in top:
         if isinstance(st, ast.Assign):
             tg = [unparse(t) for t in st.targets]
             if fld in tg or unparse(st.value) == fld:
                 aliases |= {t for t in tg if t.isidentifier()}
-    loops = [st for st in body_stmts(f.node) if isinstance(st, ast.For)]
-    snap = None
-    for lp in loops:
-        for st in ast.walk(lp):
-            if isinstance(st, ast.Assign) and isinstance(st.targets[0], ast.Subscript) and unparse(st.targets[0].value) in aliases:
-                snap = (lp, st)
-    return reset, snap
+
+    def comp_parts(c):
+        gens = [(unparse(g.target), unparse(g.iter)) for g in c.generators]
+        cond = any(g.ifs for g in c.generators)
+        if isinstance(c, ast.DictComp):
+            return gens, unparse(c.key), unparse(c.value), cond
+        if isinstance(c.elt, ast.Tuple) and len(c.elt.elts) == 2:
+            return gens, unparse(c.elt.elts[0]), unparse(c.elt.elts[1]), cond
+        return None
+    pm = parent_map(f.node)
+    for st in top:
+        # (a) the field (or an alias) is bound to a comprehension / dict(generator)
+        if isinstance(st, ast.Assign) and any(unparse(t) in aliases for t in st.targets):
+            v = st.value
+            if isinstance(v, ast.Call) and isinstance(v.func, ast.Name) and v.func.id in ('dict', 'OrderedDict') and len(v.args) == 1:
+                v = v.args[0]
+            if isinstance(v, (ast.DictComp, ast.GeneratorExp, ast.ListComp)):
+                parts = comp_parts(v)
+                if parts:
+                    return (st, st) + parts
+        # (b) old.update(<generator>)
+        if isinstance(st, ast.Expr) and isinstance(st.value, ast.Call) and call_name(st.value) == 'update' and \
+                unparse(st.value.func.value) in aliases and len(st.value.args) == 1 and \
+                isinstance(st.value.args[0], (ast.GeneratorExp, ast.ListComp, ast.DictComp)):
+            parts = comp_parts(st.value.args[0])
+            if parts and reset:
+                return (reset[0], st) + parts
+        # (c) loops storing old[k] = v
+        if isinstance(st, ast.For):
+            for x in ast.walk(st):
+                if isinstance(x, ast.Assign) and isinstance(x.targets[0], ast.Subscript) and unparse(x.targets[0].value) in aliases:
+                    gens = []
+                    cur = x
+                    cond = False
+                    while cur is not st:
+                        cur = pm.get(id(cur))
+                        if isinstance(cur, ast.For):
+                            gens.insert(0, (unparse(cur.target), unparse(cur.iter)))
+                        elif isinstance(cur, (ast.If, ast.Try, ast.While)):
+                            cond = True
+                    if reset:
+                        return reset[0], st, gens, unparse(x.targets[0].slice), unparse(x.value), cond
+    return None
 
 
 def rule_c(ctx, ix):
@@ -152,22 +191,19 @@ def rule_c(ctx, ix):
         c = ix.cls(CMD + cname)
         do, undo = c.resolve_func('do'), c.resolve_func('undo')
         s = do.self_name
-        reset, snap = _snapshot_parts(do, s)
-        if not reset or snap is None:
+        parts = _snapshot_parts(do, s)
+        if parts is None:
             ctx.ob(R, do.construct, 'do snapshots the selection of every subset', False,
                    detail='%s.do no longer fills self.old_states' % cname, where=do.where)
             continue
-        lp, st = snap
-        # loop nest: for data in self.data_collection: for subset in data.subsets:
-        inner = [x for x in lp.body if isinstance(x, ast.For)]
-        ok = unparse(lp.iter) == '%s.data_collection' % s and len(inner) == 1 and \
-            unparse(inner[0].iter) == '%s.subsets' % unparse(lp.target) and \
-            isinstance(st.targets[0], ast.Subscript) and unparse(st.targets[0].slice) == unparse(inner[0].target) and \
-            unparse(st.value) == '%s.subset_state' % unparse(inner[0].target)
-        pmap = parent_map(do.node)
-        conds = [g for g, br in guard_chain(pmap, st, lp) if isinstance(g, ast.If)]
-        ctx.ob(R, do.construct, 'the snapshot covers every subset of every dataset', ok and not conds,
-               detail='%s.do does not record subset.subset_state for every subset of every dataset of the collection' % cname,
+        reset0, lp, gens, key, val, conditional = parts
+        reset = [reset0]
+        # for data in self.data_collection: for subset in data.subsets: old[subset] = subset.subset_state
+        ok = len(gens) == 2 and gens[0][1] == '%s.data_collection' % s and gens[1][1] == '%s.subsets' % gens[0][0] and \
+            key == gens[1][0] and val == '%s.subset_state' % gens[1][0]
+        ctx.ob(R, do.construct, 'the snapshot covers every subset of every dataset', ok and not conditional,
+               detail='%s.do does not record subset.subset_state for every subset of every dataset of the collection (found: %s -> %s: %s%s)'
+                      % (cname, gens, key, val, ', conditionally' if conditional else ''),
                where=where(do, lp))
         cfg = CFG(do.node)
         dom = cfg.dominators()
